@@ -170,9 +170,12 @@ def acquiredOf (oJ : Journal) (resps : List Resp) : Option (List String) :=
 def incErrOfOutcome (s : String) (rejected : Bool) : IncErr :=
   if s == "ok" then .none else if s == "fatal:fleet-strikes" then .fatal else if rejected then .rejected else .failed
 
-def handleAwsOp (j : Json) : OpOut :=
+def handleAwsOp (prev : Option PGroup) (j : Json) : OpOut × Option PGroup :=
   match j.getObjValAs? PGroup "g", j.getObjValAs? AwsCfg "cfg", j.getObjValAs? (List Resp) "resps" with
-  | .ok g, .ok cfg, .ok resps =>
+  | .ok g0, .ok cfg, .ok resps =>
+    -- in a sequence (seq > 0) the cached group is the one the model's previous operation left behind
+    let seq : Nat := getD j "seq" 0
+    let g := if seq > 0 then prev.getD g0 else g0
     let kind : String := getD j "kind" ""
     let obs := (j.getObjVal? "obs").toOption.getD Json.null
     let oJ : Journal := getD obs "j" []
@@ -191,10 +194,10 @@ def handleAwsOp (j : Json) : OpOut :=
           (if Spec.C17.attachHolds g.id acq oJ then [] else ["C17:attach-partition"]) ++
           (if Spec.C18.holds acq oJ oErr then [] else ["C18:leak"])
         | none => []
-      { diffs := (if r.j == oJ then [] else ["journal"]) ++ (if mOut == oOut then [] else ["outcome"]),
-        mon := m17 ++ m1718,
-        tag := "awsop:increase:" ++ (match r.val.err with | .none => "ok" | .rejected => "rejected" | .failed => "failed" | .fatal => "fatal"),
-        model := Json.mkObj [("j", toJson r.j), ("outcome", toJson mOut)] }
+      ({ diffs := (if r.j == oJ then [] else ["journal"]) ++ (if mOut == oOut then [] else ["outcome"]),
+         mon := m17 ++ m1718,
+         tag := "awsop:increase:" ++ (match r.val.err with | .none => "ok" | .rejected => "rejected" | .failed => "failed" | .fatal => "fatal") ++ (if seq > 0 then ":seq" else ""),
+         model := Json.mkObj [("j", toJson r.j), ("outcome", toJson mOut)] }, some r.val.g)
     else
       match j.getObjValAs? (List Node) "nodes" with
       | .ok nodes =>
@@ -205,13 +208,13 @@ def handleAwsOp (j : Json) : OpOut :=
           else if oJ.isEmpty then .refused else .failed
         -- a refused request and a not-in-group on the first node both have an empty journal: accept either reading
         let m19 := if Spec.C19.deleteHolds g nodes oJ oErr || (oOut == "error" && oJ.isEmpty && Spec.C19.deleteHolds g nodes oJ .refused) then [] else ["C19:delete"]
-        { diffs := (if r.j == oJ then [] else ["journal"]) ++ (if mOut == oOut then [] else ["outcome"]) ++
-                   (if r.val.g.asg.desired == oT then [] else ["cached-desired"]),
-          mon := m19,
-          tag := "awsop:delete:" ++ (match r.val.err with | .none => "none" | .refused => "refused" | .notInGroup => "notInGroup" | .failed => "failed"),
-          model := Json.mkObj [("j", toJson r.j), ("outcome", toJson mOut), ("desired", toJson r.val.g.asg.desired)] }
-      | .error e => { diffs := ["bad-case:" ++ e] }
-  | _, _, _ => { diffs := ["bad-case"] }
+        ({ diffs := (if r.j == oJ then [] else ["journal"]) ++ (if mOut == oOut then [] else ["outcome"]) ++
+                    (if r.val.g.asg.desired == oT then [] else ["cached-desired"]),
+           mon := m19,
+           tag := "awsop:delete:" ++ (match r.val.err with | .none => "none" | .refused => "refused" | .notInGroup => "notInGroup" | .failed => "failed"),
+           model := Json.mkObj [("j", toJson r.j), ("outcome", toJson mOut), ("desired", toJson r.val.g.asg.desired)] }, some r.val.g)
+      | .error e => ({ diffs := ["bad-case:" ++ e] }, none)
+  | _, _, _ => ({ diffs := ["bad-case"] }, none)
 
 deriving instance FromJson, ToJson for Gen.RawCfg
 
